@@ -2,6 +2,7 @@
 from __future__ import annotations
 
 import types
+from itertools import product
 
 from hypothesis import strategies as st
 
@@ -23,7 +24,10 @@ RULE_TEXT = (
     "module_path + ancestors up to the root name; hierarchy edges = exactly (parent(m), m); sub-module sets by dotted "
     "components (observed through get_dependencies with a 'sub modules of' filter); scan(root, sub) == restriction of "
     "scan(root, root); the rendering with imports written relative to module_path's parent gives the same sub-scan; the "
-    "module-object entry point equals the path entry point. Non-trivial: module_path != root_path, or a prefix-colliding "
+    "module-object entry point equals the path entry point; a rendering with relative from-imports (smallest level that "
+    "reaches the target) and a second scan of the unchanged tree, both made after the first scan in the same process, give "
+    "the same architecture; root directory names are drawn from {proj, a, ab, m}, so the root's name may string-prefix or "
+    "equal a package name below it. Non-trivial: module_path != root_path, or a prefix-colliding "
     "sibling pair, or a package without __init__.py."
 )
 ASSUMPTIONS = [
@@ -43,6 +47,27 @@ def check_case(spec: dict) -> dict:
 
     def v(sig, detail):
         viols.append({"sig": f"C04/{sig}", "key": {}, "detail": detail})
+
+    # Ambiguous import texts (only possible when a directory below the root carries the root's own name): in a sub-scan a
+    # dotted name T can be read as fully qualified from the root AND as relative to module_path's parent P (= P.T). The
+    # property promises that both ways of writing resolve, not which reading wins when one text has both; edges of such
+    # statements are left out of every sub-scan comparison.
+    ignore = set()
+    if sub_rel:
+        P = ".".join(sub.split(".")[:-1])
+        for f, t in spec.get("imports", []):
+            u = PS.dotted(root, f)
+            short = t[len(P) + 1:] if M.is_strict_desc(t, P) and M.is_self_or_desc(t, sub) else t
+            for text in {t, short}:
+                readings = {text, f"{P}.{text}"} & mods
+                pk = text.rsplit(".", 1)[0] if "." in text else None
+                if pk:
+                    readings |= {pk, f"{P}.{pk}"} & mods if len(readings) > 1 else set()
+                if len(readings) > 1:
+                    ignore |= {(u, r) for r in readings}
+
+    def clean(imps_):
+        return PS.drop_ancestor_imports(imps_) - ignore
 
     with Project(root, files, spec["dirs"]) as pr:
         full = scan_outcome(pr.path())
@@ -83,6 +108,27 @@ def check_case(spec: dict) -> dict:
         with Project(root, files3, spec["dirs"]) as pr3:
             alt3 = scan_outcome(pr3.path(), pr3.path(sub_rel))
 
+    # fourth rendering: relative from-imports; scanned after the absolute rendering of the same module names, and the
+    # absolute rendering once more after it (a build must not depend on builds that went before it)
+    with Project(root, PS.render_files_relative(spec), spec["dirs"]) as pr4:
+        rel_full = scan_outcome(pr4.path())
+        rel_part = scan_outcome(pr4.path(), pr4.path(sub_rel)) if sub_rel else rel_full
+    with Project(root, files, spec["dirs"]) as pr5:
+        again = scan_outcome(pr5.path())
+
+    def same(a, b):
+        return a[0] == b[0] == "ok" and (set(a[1][0]), PS.drop_ancestor_imports(a[1][1]), set(a[1][2])) == (set(b[1][0]), PS.drop_ancestor_imports(b[1][1]), set(b[1][2]))
+
+    if full[0] == "ok":
+        if not same(rel_full, full):
+            v("relative-from-imports-differ", f"relative from-imports give {rel_full[1] if rel_full[0] != 'ok' else sorted(PS.drop_ancestor_imports(rel_full[1][1]))}, "
+              f"'import <full name>' gives {sorted(PS.drop_ancestor_imports(full[1][1]))}")
+        if not same(again, full):
+            v("second-scan-differs", f"second scan of the same tree: {again[1] if again[0] != 'ok' else sorted(again[1][1])} vs first {sorted(full[1][1])}")
+        if sub_rel and part[0] == "ok" and not (rel_part[0] == "ok" and (set(rel_part[1][0]), clean(rel_part[1][1]), set(rel_part[1][2])) == (set(part[1][0]), clean(part[1][1]), set(part[1][2]))):
+            v("relative-from-imports-differ/sub-scan", f"module_path={sub}: relative from-imports give {rel_part[1] if rel_part[0] != 'ok' else sorted(PS.drop_ancestor_imports(rel_part[1][1]))}, "
+              f"'import <full name>' gives {sorted(PS.drop_ancestor_imports(part[1][1]))}")
+
     if full[0] != "ok":
         v("scan-error", full[1])
     else:
@@ -114,7 +160,7 @@ def check_case(spec: dict) -> dict:
             wm, wi = PS.restrict(mods, imps, sub)
             if set(part[1][0]) != wm:
                 v("sub-scan-modules", f"module_path={sub}: modules {sorted(part[1][0])} != restriction {sorted(wm)}")
-            if PS.drop_ancestor_imports(part[1][1]) != wi:
+            if clean(part[1][1]) != wi - ignore:
                 v("sub-scan-imports", f"module_path={sub}: imports {sorted(part[1][1])} != restriction {sorted(wi)}")
             want_hp = {(".".join(m.split(".")[:-1]), m) for m in wm if "." in m}
             if set(part[1][2]) != want_hp:
@@ -122,13 +168,13 @@ def check_case(spec: dict) -> dict:
             if alt is not None:
                 if alt[0] != "ok":
                     v("relative-rendering-error", alt[1])
-                elif (set(alt[1][0]), PS.drop_ancestor_imports(alt[1][1])) != (set(part[1][0]), PS.drop_ancestor_imports(part[1][1])):
+                elif (set(alt[1][0]), clean(alt[1][1])) != (set(part[1][0]), clean(part[1][1])):
                     v("relative-rendering-differs", f"module_path={sub}: imports written relative to module_path's parent give "
                       f"{sorted(alt[1][1])}, fully qualified give {sorted(part[1][1])}")
     if sub_rel and full[0] == "ok" and part[0] == "ok":
         if alt3[0] != "ok":
             v("from-import-rendering-error", alt3[1])
-        elif (set(alt3[1][0]), PS.drop_ancestor_imports(alt3[1][1])) != (set(part[1][0]), PS.drop_ancestor_imports(part[1][1])):
+        elif (set(alt3[1][0]), clean(alt3[1][1])) != (set(part[1][0]), clean(part[1][1])):
             v("from-import-rendering-differs", f"module_path={sub}: 'from <pkg relative to module_path.parent> import <module>' gives "
               f"{sorted(PS.drop_ancestor_imports(alt3[1][1]))}, fully qualified 'import' gives {sorted(PS.drop_ancestor_imports(part[1][1]))}")
     if part[0] == "ok":
@@ -145,7 +191,8 @@ def check_case(spec: dict) -> dict:
 
 @st.composite
 def cases(draw):
-    tree = draw(PS.project_trees(max_depth=5))
+    # the root directory's own name may be a string prefix of (or equal to) a package name below it
+    tree = draw(PS.project_trees(root=draw(st.sampled_from(["proj", "proj", "a", "ab", "m"])), max_depth=5))
     tree = draw(PS.with_imports(tree))
     dirs = [""] + tree["dirs"]
     tree["module_path"] = draw(st.sampled_from(dirs)) if draw(st.booleans()) else draw(st.sampled_from(dirs[-2:]))
@@ -161,7 +208,7 @@ def exh_shard(arg, stt, deadline) -> None:
     shard, nshards = arg
     options = [None, "file", "dir", "dir+init", "dir+child-a", "dir+init+child-ab", "dir+child-a+child-ab"]
     i = 0
-    for oa in options:
+    for oa, rootname in product(options, ("proj", "a")):
         for oab in options:
             for mp in ("", "a", "ab"):
                 i += 1
@@ -183,13 +230,13 @@ def exh_shard(arg, stt, deadline) -> None:
                         py.append(f"{name}/ab.py")
                 if mp and mp not in dirs:
                     continue
-                spec = {"root": "proj", "dirs": dirs, "pyfiles": sorted(py), "otherfiles": [], "module_path": mp}
+                spec = {"root": rootname, "dirs": dirs, "pyfiles": sorted(py), "otherfiles": [], "module_path": mp}
                 mods = sorted(PS.tree_modules(spec))
                 files = [f for f in py]
                 imps = []
                 for k, f in enumerate(files):
                     t = mods[(k * 3 + 1) % len(mods)]
-                    if t != PS.dotted("proj", f):
+                    if t != PS.dotted(rootname, f):
                         imps.append([f, t])
                 spec["imports"] = imps
                 stt.record(spec, check_case(spec), enumerated=True, sample=(i % 29 == 3))
@@ -215,5 +262,5 @@ def run(ctx) -> None:
     ctx.exhaustive("directory-chains", MOD, "chain_shard", [(d,) for d in (1, 2, 3, 4)],
                    "directory chains of depth 1-4 with 4 bottom contents x with/without a top-level file x module_path at every level")
     ctx.exhaustive("small-tree-family", MOD, "exh_shard", [(i, nsh) for i in range(nsh)],
-                   "top-level entries a and ab each in 7 shapes (absent, file, directory with/without __init__ and children a/ab) x module_path in {root, a, ab}")
+                   "root directory named proj or a x top-level entries a and ab each in 7 shapes (absent, file, directory with/without __init__ and children a/ab) x module_path in {root, a, ab}")
     ctx.random("random-trees", MOD, "strategy", "check_case", 1500 if ctx.tier == "quick" else 40000)
